@@ -21,6 +21,26 @@ NA = {
 }
 
 CHECKS = {
+ "C13": dict(
+    technique="deterministic simulation: generated concurrent programs executed natively under the seeded scheduler with value-level taint sentinels; the analyser's flows and escapes on the clean text are the claim",
+    text="Seeded search over programs and schedules (statement-granularity yields, stalls, priority schedules). Every (source line, sink line) pair whose token reaches a sink in some execution must be reported as a flow, or its source must be reported as escaping; a miss while taint.Analyze returns an error is not silent and is bucketed separately.",
+    note="Observation can only under-report (tokens captured in closures or in flight in channels are not visible). Programs are import-free; sharing through go arguments, captured variables, globals, fields, channels of pointers, maps, slices, interface values.",
+    ref="4/C13"),
+ "C14": dict(
+    technique="deterministic simulation: the same generated programs under the seeded scheduler with a race detector that cannot see the scheduler, plus an access log; lines the escape analysis claims thread-local in every context are the claim",
+    text="Seeded search. A violation is a race report whose later access is at a line claimed local, or a logged access at such a line to an object that another live goroutine accesses both before and after it. Both oracles can only under-report.",
+    note="A line is claimed local iff every memory-accessing SSA instruction on it is local in every context of the walk used by the repository's own locality test (arbitrary context for main and go callees, call-site contexts below). Walks cut off by the budget make no claims. When the claimed-local access is the earlier one of a race pair it is not counted (the object may have been published later).",
+    ref="4/C14"),
+ "C15": dict(
+    technique="deterministic simulation of the escape analysis as a work-queue system: block and function queues and every map iteration behind a seeded pick seam (hooks, tag verif); laws and monotonicity evaluated on the graphs the runs reach",
+    text="Seeded search over processing orders: set of summarised functions, renumbering-invariant hash of every summary and locality verdict of every instruction must equal those of the calm order; after convergence re-processing any block must change nothing. Riding on the runs: idempotence, commutativity, associativity, upper bound on block-end/initial graphs and seeded weakenings; monotonicity of single transfer steps and of call-summary instantiation under weakened inputs; the built-in per-instruction self-check switched on as a collector.",
+    note="The hash can miss a difference, never invent one. Laws/monotonicity are property-based checks on reached states, not schedule search; evidence counts them separately.",
+    ref="4/C15"),
+ "C19": dict(
+    technique="deterministic simulation with fault injection: every go form x defer form generated, panics injected at seeded points inside goroutines under seeded schedules; the may-panic report is the claim",
+    text="For every run in which an injected panic reaches the top of a goroutine (observed by the simulator's outermost frame of that task), the go statement that created it must be a creation site in the may-panic JSON report. The generator's beliefs about which defer forms recover are checked against the executions (mismatch = exit 2).",
+    note="The first sentence of C19 is syntactic; simulation supplies the execution-level ground truth. Findings are matched by creation-site line.",
+    ref="4/C19"),
  "C05": dict(
     technique="deterministic simulation: option sets that add goroutines/files/log traffic compared under seeded adversarial schedules and map orders; on-demand/pkg-filter/max-alarms variants ride along as a cross-run oracle",
     text="Seeded search, not proof. For each generated program the verdict (set of source->sink position pairs) of the base configuration under the zero tape is compared with the verdict under every listed option set run with swarm-drawn schedules, worker counts and map orders. max-alarms=k: subset, at most k, non-empty iff the unlimited result is. Only report-*/log-level have a temporal dimension; summarize-on-demand, pkg-filter and max-alarms are a differential comparison executed inside the simulator and are counted separately (sim_decided / ride_along / max_alarms in the evidence).",
@@ -46,7 +66,7 @@ CHECKS = {
 m = {
  "version": 1,
  "setup_cmd": "bin/check --setup",
- "hooks": {"guard": "verif", "enable": "checks copy /repo's working tree to a scratch directory, instrument it with /verif/simrewrite and build with `go build -race -tags verif`", "baseline_off_cmd": "cd /repo && GOFLAGS=-mod=mod go test -json -vet=off -count=1 -timeout 25m ./...", "source_commits": [], "add_only": True},
+ "hooks": {"guard": "verif", "enable": "checks copy /repo's working tree to a scratch directory, instrument it with /verif/simrewrite and build with `go build -race -tags verif`", "baseline_off_cmd": "cd /repo && GOFLAGS=-mod=mod go test -json -vet=off -count=1 -timeout 25m ./...", "source_commits": ["a3bf724", "4229e13"], "add_only": True},
  "engines": [
    {"name": "simrt", "path": "simrt", "serves_properties": sorted(CHECKS), "kind_free_text": "deterministic scheduler runtime (Go): tasks, tape, channel/WaitGroup/Mutex models, RangeMap, logical clock; baton invisible to the race detector"},
    {"name": "simrewrite", "path": "simrewrite", "serves_properties": sorted(CHECKS), "kind_free_text": "type-directed source instrumenter applied to a scratch copy of /repo"},
